@@ -1,4 +1,5 @@
 import Mochi.Model.Broker
+import Mochi.Lemmas.Alias
 /-!
 # C24 — Topic aliases are always resolvable by the receiver
 
@@ -8,6 +9,15 @@ Known findings F24a/F24b (recorded): the alias is registered when the message is
 is known to be written (deferred by flow control, dropped, or stored and resent on a new connection),
 so a later packet can carry an alias the client never saw bound — exhibited by the independent
 decoder of the correspondence harness.
+
+Second part (namespace `Mochi.Alias`): the alias TABLES of topics.go with their integer widths
+(`Model/Alias.lean`: cursor uint32, aliases uint16), for every Topic Alias Maximum a uint16 can hold and
+every sequence of `Set` calls from the empty table: aliases stay within the maximum, bindings are
+injective and permanent, `existed` means "bound by an earlier call", a full table answers 0 and does not
+change (in particular at maximum 65535, where `uint16(cursor)+1` would wrap), the broker model's unbounded
+`Nat` version agrees with the width-faithful one, and the inbound table resolves an alias to the topic last
+bound to it. `C24_out_wrapped_counterexample` shows what computing the alias in uint16 BEFORE the bound
+check does at maximum 65535. Tied to the Go code by the `alias` suite (maxima 0 … 65535).
 -/
 namespace Mochi.Broker
 open Mochi.Topics
@@ -155,3 +165,264 @@ example : (processPublish { objs := [{ ver := 5, recvQuota := 1 }] } 0 0 false f
     ([.wrote 0 (.disconnect 5 0x82), .closed 0], some 0x82) := by decide
 
 end Mochi.Broker
+
+/-! ## The alias tables with their integer widths (Model/Alias.lean) -/
+namespace Mochi.Alias
+open Mochi.Topics Mochi.Broker
+
+/-- every alias ever returned is within the Topic Alias Maximum, none (0 = "send the topic") is returned
+    when the maximum is 0, and every alias ever stored is in `1 .. maximum` -/
+theorem C24_out_alias_le_max (m : Nat) (hm : m < 65536) (ts : List Str) (t : Str) :
+    (((Out.new m).after ts).set t).2.1 ≤ m ∧
+    (m = 0 → (((Out.new m).after ts).set t).2.1 = 0) ∧
+    (∀ t' x, assocGet ((Out.new m).after ts).internal t' = some x → 1 ≤ x ∧ x ≤ m) := by
+  have hinv := inv_after (inv_new m hm) ts
+  have hmax : ((Out.new m).after ts).maximum = m := by rw [after_maximum, new_maximum m hm]
+  have h1 := set_alias_le hinv t
+  rw [hmax] at h1
+  refine ⟨h1, fun h0 => by omega, ?_⟩
+  intro t' x hx
+  have := hinv.bound_range hx
+  have := hinv.cur_le
+  omega
+
+/-- two different topics never hold the same alias, and a binding, once made, never changes: the table
+    only grows -/
+theorem C24_out_alias_injective (m : Nat) (hm : m < 65536) (ts : List Str) :
+    (∀ t1 t2 x, assocGet ((Out.new m).after ts).internal t1 = some x →
+        assocGet ((Out.new m).after ts).internal t2 = some x → t1 = t2) ∧
+    (∀ t x, assocGet ((Out.new m).after ts).internal t = some x →
+        ∀ ts', assocGet ((Out.new m).after (ts ++ ts')).internal t = some x) := by
+  have hinv := inv_after (inv_new m hm) ts
+  refine ⟨fun t1 t2 x h1 h2 => hinv.injective h1 h2, ?_⟩
+  intro t x hx ts'
+  rw [after_append]
+  exact after_mono _ ts' t x hx
+
+/-- `existed = true` exactly when an EARLIER call `Set(t)` of the sequence bound the topic (returned a
+    non-zero alias), and then the alias returned now is the one returned then -/
+theorem C24_out_existed_iff_bound (m : Nat) (hm : m < 65536) (ts : List Str) (t : Str) :
+    ((((Out.new m).after ts).set t).2.2 = true ↔
+        ∃ p, (p ++ [t]) <+: ts ∧ (((Out.new m).after p).set t).2.1 ≠ 0) ∧
+    (∀ p, (p ++ [t]) <+: ts → (((Out.new m).after p).set t).2.1 ≠ 0 →
+        (((Out.new m).after ts).set t).2.1 = (((Out.new m).after p).set t).2.1 ∧
+        (((Out.new m).after ts).set t).2.2 = true ∧
+        (((Out.new m).after ts).set t).1 = (Out.new m).after ts) := by
+  have hinv := inv_after (inv_new m hm) ts
+  constructor
+  · rw [set_existed_iff hinv]
+    constructor
+    · rintro ⟨x, hx⟩
+      obtain ⟨p, hp, hr, h0⟩ := (bound_iff_earlier m hm ts t x).1 hx
+      exact ⟨p, hp, by rw [hr]; exact h0⟩
+    · rintro ⟨p, hp, h0⟩
+      exact ⟨_, (bound_iff_earlier m hm ts t _).2 ⟨p, hp, rfl, h0⟩⟩
+  · intro p hp h0
+    have hx := (bound_iff_earlier m hm ts t _).2 ⟨p, hp, rfl, h0⟩
+    rw [set_existing _ t _ (hinv.max_ne_zero_of_bound hx) hx]
+    exact ⟨rfl, rfl, rfl⟩
+
+/-- when all `maximum` aliases are taken a new topic gets alias 0 ("send the topic") and the table is
+    unchanged -/
+theorem C24_out_full_table (m : Nat) (hm : m < 65536) (ts : List Str) (t : Str)
+    (hfull : ((Out.new m).after ts).internal.length = m)
+    (hnew : assocGet ((Out.new m).after ts).internal t = none) :
+    ((Out.new m).after ts).set t = ((Out.new m).after ts, 0, false) := by
+  have hinv := inv_after (inv_new m hm) ts
+  apply set_full hinv t _ hnew
+  rw [after_maximum, new_maximum m hm]; exact hfull
+
+/-- the keys of a reachable table are topics of the sequence -/
+theorem key_mem_sequence (m : Nat) (hm : m < 65536) (ts : List Str) (t : Str) (ht : t ∉ ts) :
+    assocGet ((Out.new m).after ts).internal t = none := by
+  cases hg : assocGet ((Out.new m).after ts).internal t with
+  | none => rfl
+  | some x =>
+    obtain ⟨p, hp, _⟩ := (bound_iff_earlier m hm ts t x).1 hg
+    exact absurd (List.IsPrefix.mem (by simp) hp) ht
+
+/-- … and the table does fill up: `maximum` or more pairwise different topics take all the aliases, after
+    which every further topic is answered 0 -/
+theorem C24_out_full_table_reached (m : Nat) (hm : m < 65536) (ts : List Str) (t : Str)
+    (hn : ts.Nodup) (hlen : m ≤ ts.length) (ht : t ∉ ts) :
+    ((Out.new m).after ts).internal.length = m ∧
+    ((Out.new m).after ts).set t = ((Out.new m).after ts, 0, false) := by
+  have hl : ((Out.new m).after ts).internal.length = m := by
+    rw [after_length (inv_new m hm) ts (fun _ _ => rfl) hn, new_maximum m hm]
+    simp only [Out.new, List.length_nil]
+    omega
+  exact ⟨hl, C24_out_full_table m hm ts t hl (key_mem_sequence m hm ts t ht)⟩
+
+/-- the boundary the widths are about: at Topic Alias Maximum 65535, after 65535 different topics, the
+    next topic is answered 0 and nothing is stored (`uint16(65535)+1` is never computed) -/
+theorem C24_out_full_table_65535 :
+    let ts := (List.range 65535).map (fun k => [k])
+    ((Out.new 65535).after ts).internal.length = 65535 ∧
+    ((Out.new 65535).after ts).set [65535] = ((Out.new 65535).after ts, 0, false) := by
+  intro ts
+  refine C24_out_full_table_reached 65535 (by omega) ts [65535] ?_ (by simp [ts]) ?_
+  · show List.Pairwise (· ≠ ·) _
+    rw [List.pairwise_map]
+    exact (List.nodup_range (n := 65535)).imp (fun h e => h (by simpa using e))
+  · simp [ts]
+
+/-- the relation between a width-faithful table and the alias fields of the broker model's client -/
+def Rel (a : Out) (c : Client) : Prop :=
+  c.tam = a.maximum ∧ c.aliasOut = a.internal ∧ c.aliasCursor = a.cursor
+
+/-- the broker model's `aliasOutSet` iterated -/
+def natAfter (c : Client) (ts : List Str) : Client := ts.foldl (fun c t => (aliasOutSet c t).1) c
+
+/-- for every maximum a uint16 can hold, the width-faithful `Out.set` and the unbounded-`Nat`
+    `aliasOutSet` of the broker model agree on the alias, the existed flag and the next state -/
+theorem C24_out_refines_nat (m : Nat) (hm : m < 65536) (ts : List Str) (c : Client)
+    (hr : Rel ((Out.new m).after ts) c) (t : Str) :
+    (aliasOutSet c t).2.1 = (((Out.new m).after ts).set t).2.1 ∧
+    (aliasOutSet c t).2.2 = (((Out.new m).after ts).set t).2.2 ∧
+    Rel (((Out.new m).after ts).set t).1 (aliasOutSet c t).1 := by
+  have hinv := inv_after (inv_new m hm) ts
+  rw [set_eq_setNat hinv]
+  generalize (Out.new m).after ts = a at hr hinv
+  obtain ⟨h1, h2, h3⟩ := hr
+  unfold Out.setNat aliasOutSet
+  simp only [h1, h2, h3]
+  by_cases hz : (a.maximum == 0) = true
+  · simp [hz, Rel, h1, h2, h3]
+  · cases hg : assocGet a.internal t with
+    | some i => simp [hz, Rel, h1, h2, h3]
+    | none =>
+      by_cases hgt : a.cursor + 1 > a.maximum
+      · simp [hz, hgt, Rel, h1, h2, h3]
+      · simp [hz, hgt, Rel]
+
+/-- hence over whole sequences from the empty table: the broker model's client and the width-faithful
+    table stay related -/
+theorem C24_out_refines_nat_run (m : Nat) (hm : m < 65536) (ts : List Str) (c : Client)
+    (h1 : c.tam = m) (h2 : c.aliasOut = []) (h3 : c.aliasCursor = 0) :
+    Rel ((Out.new m).after ts) (natAfter c ts) := by
+  induction ts using list_snoc_induction with
+  | nil =>
+    show Rel (Out.new m) c
+    exact ⟨by rw [new_maximum m hm]; exact h1, h2, h3⟩
+  | snoc ts t ih =>
+    rw [after_snoc]
+    have : natAfter c (ts ++ [t]) = (aliasOutSet (natAfter c ts) t).1 := by
+      simp [natAfter, List.foldl_append]
+    rw [this]
+    exact (C24_out_refines_nat m hm ts _ ih t).2.2
+
+theorem in_after_maximum (a : In) (ops : List (Nat × Str)) : (a.after ops).maximum = a.maximum := by
+  induction ops generalizing a with
+  | nil => rfl
+  | cons o ops ih => rw [in_after_cons, ih, in_set_maximum]
+
+/-- inbound: an alias presented with an empty topic resolves to the topic last bound to it on this
+    table (to the empty topic — which `processPublish` rejects — when none was) -/
+theorem C24_in_resolves_last_binding (m : Nat) (h0 : 0 < m) (hm : m < 65536) (ops : List (Nat × Str)) (id : Nat) :
+    (((In.new m).after ops).set id []).2 = (lastBinding ops id).getD [] ∧
+    (∀ t, t ≠ [] → (((In.new m).after ops).set id t).2 = t ∧
+        ((((In.new m).after ops).set id t).1.set id []).2 = t) := by
+  have hmax : (In.new m).maximum ≠ 0 := by
+    simp only [In.new, u16_of_lt hm]; omega
+  have key : ∀ ops : List (Nat × Str), (((In.new m).after ops).set id []).2 = (lastBinding ops id).getD [] := by
+    intro ops
+    have hg := in_after_get (In.new m) hmax ops id none rfl
+    have hz : (((In.new m).after ops).maximum == 0) = false := by
+      rw [in_after_maximum]; simpa using hmax
+    unfold In.set lastBinding
+    simp only [hz]
+    cases hc : assocGet ((In.new m).after ops).internal id with
+    | some e => rw [hc] at hg; simpa using hg
+    | none => rw [hc] at hg; simpa using hg
+  refine ⟨key ops, ?_⟩
+  intro t ht
+  have hz : (((In.new m).after ops).maximum == 0) = false := by
+    rw [in_after_maximum]; simpa using hmax
+  have hret : (((In.new m).after ops).set id t).2 = t := by
+    unfold In.set
+    simp only [hz]
+    cases hc : assocGet ((In.new m).after ops).internal id <;> simp [ht]
+  refine ⟨hret, ?_⟩
+  have := key (ops ++ [(id, t)])
+  simp only [In.after, List.foldl_append, List.foldl_cons, List.foldl_nil, lastBinding] at this
+  simp only [In.after]
+  rw [this]
+  simp [ht]
+
+/-- inbound with maximum 0: the topic is returned unchanged and nothing is stored -/
+theorem C24_in_zero_maximum (ops : List (Nat × Str)) (id : Nat) (t : Str) :
+    (In.new 0).after ops = In.new 0 ∧ (((In.new 0).after ops).set id t) = (In.new 0, t) := by
+  have h : ∀ ops : List (Nat × Str), (In.new 0).after ops = In.new 0 := by
+    intro ops
+    induction ops with
+    | nil => rfl
+    | cons o ops ih => rw [in_after_cons]; exact ih
+  rw [h]; exact ⟨rfl, rfl⟩
+
+/-- why the widths matter. The seeded regression computes the alias in uint16 BEFORE the bound check
+    (`Out.setWrapped`). On a full table of maximum 65535 (cursor 65535) where `t0` holds alias 1: the real
+    `Set` answers a new topic with 0 and stores nothing; the wrapped one stores "alias 0" for the first new
+    topic `t1` and then hands alias 1 — still held by `t0` — to the second new topic `t2`. -/
+theorem C24_out_wrapped_counterexample (a : Out) (t0 t1 t2 : Str)
+    (hmax : a.maximum = 65535) (hcur : a.cursor = 65535)
+    (h0 : assocGet a.internal t0 = some 1) (h1 : assocGet a.internal t1 = none)
+    (h2 : assocGet a.internal t2 = none) (h12 : t1 ≠ t2) :
+    a.set t1 = (a, 0, false) ∧
+    (a.setWrapped t1).2 = (0, false) ∧
+    assocGet (a.setWrapped t1).1.internal t1 = some 0 ∧
+    ((a.setWrapped t1).1.setWrapped t2).2 = (1, false) ∧
+    assocGet ((a.setWrapped t1).1.setWrapped t2).1.internal t0 = some 1 ∧
+    assocGet ((a.setWrapped t1).1.setWrapped t2).1.internal t2 = some 1 ∧
+    t0 ≠ t2 := by
+  have hne : t0 ≠ t2 := by
+    intro e; subst e; rw [h0] at h2; cases h2
+  have e1 : a.setWrapped t1 =
+      ({ a with internal := a.internal ++ [(t1, 0)], cursor := 65536 }, 0, false) := by
+    unfold Out.setWrapped
+    simp [hmax, hcur, h1, u16, u32]
+  have hget2 : assocGet (a.internal ++ [(t1, 0)]) t2 = none := by
+    rw [assocGet_append, h2]; simp [assocGet, h12]
+  have e2 : (a.setWrapped t1).1.setWrapped t2 =
+      ({ a with internal := a.internal ++ [(t1, 0)] ++ [(t2, 1)], cursor := 65537 }, 1, false) := by
+    rw [e1]
+    unfold Out.setWrapped
+    simp [hmax, hget2, u16, u32]
+  refine ⟨?_, ?_, ?_, ?_, ?_, ?_, hne⟩
+  · unfold Out.set
+    simp [hmax, hcur, h1, u32]
+  · rw [e1]
+  · rw [e1]; show assocGet (a.internal ++ [(t1, 0)]) t1 = some 0
+    rw [assocGet_append, h1]; simp [assocGet]
+  · rw [e2]
+  · rw [e2]; show assocGet (a.internal ++ [(t1, 0)] ++ [(t2, 1)]) t0 = some 1
+    rw [assocGet_append, assocGet_append, h0]; rfl
+  · rw [e2]; show assocGet (a.internal ++ [(t1, 0)] ++ [(t2, 1)]) t2 = some 1
+    rw [assocGet_append, hget2]; simp [assocGet]
+
+/-! ### non-vacuity -/
+
+/-- maximum 2, topics a b a c b: two bindings, `a` and `b` found again, `c` answered 0 -/
+example : ((Out.new 2).run [[97], [98], [97], [99], [98]]).2 =
+    [(1, false), (2, false), (1, true), (0, false), (2, true)] := by decide
+
+example : ((Out.new 0).run [[97], [97]]).2 = [(0, false), (0, false)] := by decide
+
+/-- the hypotheses of `C24_out_existed_iff_bound` are met: `a` was bound by the first call -/
+example : ([] ++ [[97]]) <+: [[97], [98]] ∧ (((Out.new 2).after []).set [97]).2.1 ≠ 0 :=
+  ⟨⟨[[98]], rfl⟩, by decide⟩
+
+/-- the hypotheses of `C24_out_wrapped_counterexample` are met by a table (the one 65535 calls build has
+    exactly this shape: `C24_out_full_table_65535`) -/
+example : ∃ a : Out, a.maximum = 65535 ∧ a.cursor = 65535 ∧ assocGet a.internal [0] = some 1 ∧
+    assocGet a.internal [1] = none ∧ assocGet a.internal [2] = none :=
+  ⟨{ maximum := 65535, cursor := 65535, internal := [([0], 1)] }, rfl, rfl, by decide, by decide, by decide⟩
+
+/-- the one-pass fill used by the driver and `Set` agree on an instance that crosses the boundary -/
+example : (Out.new 3).fillFresh [[1], [2], [3], [4], [5]] =
+    (((Out.new 3).run [[1], [2], [3], [4], [5]]).1, [1, 2, 3, 0, 0]) := by decide
+
+/-- inbound: bind 5 to "a", rebind to "b", resolve with an empty topic; an unbound id resolves to "" -/
+example : (((In.new 10).after [(5, [97]), (5, []), (5, [98]), (7, [99])]).set 5 []).2 = [98] := by decide
+example : (((In.new 10).after [(5, [97])]).set 6 []).2 = [] := by decide
+
+end Mochi.Alias
